@@ -12,9 +12,18 @@ GOENV = dict(os.environ, GOFLAGS="-mod=mod", GOPROXY="off", GOSUMDB="off", GOTOO
 GOENV.pop("GOPATH", None) if False else None
 
 
-def sh(cmd, cwd=None, env=None, timeout=None, input=None, check=False):
+def _limit_memory(gb):
+    def f():
+        import resource
+        resource.setrlimit(resource.RLIMIT_AS, (int(gb * 2 ** 30), int(gb * 2 ** 30)))
+    return f
+
+
+def sh(cmd, cwd=None, env=None, timeout=None, input=None, check=False, mem_gb=None):
+    """mem_gb: address-space limit for the child (a tool under test that loops while allocating must not take the machine down)."""
     p = subprocess.run(cmd, cwd=cwd, env=env, timeout=timeout, input=input,
-                       stdout=subprocess.PIPE, stderr=subprocess.PIPE, text=True)
+                       stdout=subprocess.PIPE, stderr=subprocess.PIPE, text=True,
+                       preexec_fn=_limit_memory(mem_gb) if mem_gb else None)
     if check and p.returncode != 0:
         raise RuntimeError("command failed: %s\n%s\n%s" % (cmd, p.stdout[-2000:], p.stderr[-4000:]))
     return p
